@@ -84,7 +84,7 @@ def band_event(ev, s, o, g, fn_name, a, alpha, sampler, method, np_seed):
     identity = sampler == "identity"
     e = ev("band", h=1, fn=fn_name, args=a, alpha=alpha, identity=identity, sampler=sampler, method=method,
            out={"cm": [], "fnr": [], "fpr": [], "fnr_ci": [], "fpr_ci": [], "u": [], "w": [],
-                "shape_ok": True, "nan_free": True})
+                "shape_ok": True, "nan_free": True, "views_ci": {}})
     try:
         kw = {}
         if a["fnr"]:
@@ -112,6 +112,12 @@ def band_event(ev, s, o, g, fn_name, a, alpha, sampler, method, np_seed):
         if r["shape_ok"]:
             r["fnr_ci"] = [[fx6(x[0]), fx6(x[1])] for x in fc]
             r["fpr_ci"] = [[fx6(x[0]), fx6(x[1])] for x in pc]
+        # the derived interval views of the returned curve (beyond the listed property: EXT clause)
+        r["views_ci"] = {}
+        for v in ("tpr_ci", "tnr_ci", "frr_ci", "far_ci", "tar_ci", "trr_ci"):
+            a_ = getattr(c, v)
+            r["views_ci"][v] = [] if a_ is None or np.asarray(a_).shape != (n, 2) else \
+                [[fx6(x[0]), fx6(x[1])] for x in np.asarray(a_, dtype=float)]
         if fn_name == "roc_with_ci" and identity:
             # what every replicate equals under an identity sampler (same public API)
             r["u"] = rats(s.fnr(s.threshold_at_fpr(np.asarray(c.fpr))))
